@@ -9,13 +9,15 @@
    memory exhaustion — C02_alloc); allocation requests are bounded by K0 + K1 * length b
    whatever lengths the input claims (C02_alloc, on the run model of C02/Alloc.v).
 
-   NOT here (see checks/C02.py): a step-count theorem (C02_F_steps) — the wire models expose
-   fuel, not a step counter; json decoding (only its skip scanner has a totality lemma);
+   Steps: the wire models expose fuel, not a step counter; C02_walker_steps_partial bounds the
+   steps of a step-counting skeleton of the recursive walkers for EVERY head parser that makes
+   progress — it is not instantiated per format (no per-format C02_F_steps).
+   NOT here (see checks/C02.py): json decoding (only its skip scanner has a totality lemma);
    typed destinations and io.Reader transports; real time and memory (harness oracle). *)
 From Coq Require Import List NArith ZArith Lia Bool.
 From Verif Require Import Base.Outcome Wire.Item Gen.Consts.
 From Verif Require Wire.Cbor Wire.Msgpack Wire.Simple Wire.Binc Wire.Json.
-From Verif Require Import C02.Bridge C02.Alloc C02.AllocProofs.
+From Verif Require Import C02.Bridge C02.Alloc C02.AllocProofs C02.Steps C02.StepsProofs.
 Import ListNotations.
 
 (* from Wcbor dec_total / skip_total (Wire/CborTotal.v); the walker from any entry depth d *)
@@ -79,7 +81,35 @@ Theorem C02_alloc : forall (md mil U KL : Z), (0 <= U)%Z -> (0 <= KL)%Z -> foral
 Proof. exact alloc_lemma. Qed.
 Print Assumptions C02_alloc.
 
+(* PARTIAL (a skeleton, not the per-format models): the recursive value walker — read a head, walk
+   n values / values until a break — with a step counter (one step per call and per loop
+   iteration), over ANY head parser that consumes at least one byte (the wire-layer progress
+   theorems say the real ones do), any break byte, any depth policy, any fuel: at most
+   4 * length b + 2 steps, whatever lengths the heads claim *)
+Theorem C02_walker_steps_partial : forall (head : list N -> res shape) (is_break : N -> bool) (depth_ok : Z -> bool),
+  (forall b s, head b = Ok s -> (length (rest_of s) < length b)%nat) ->
+  forall (f : nat) (d : Z) (b : list N), (snd (walk head is_break depth_ok f d b) <= 4 * length b + 2)%nat.
+Proof. exact steps_lemma. Qed.
+Print Assumptions C02_walker_steps_partial.
+
 (* ------------------------------ non-vacuity ------------------------------ *)
+(* a toy head: 0 = leaf, 255 = container until break (254), n = container of n values *)
+Definition toy_head (b : list N) : res shape :=
+  match b with
+  | [] => Err EEof
+  | x :: r => if (x =? 0)%N then Ok (SLeaf r) else if (x =? 255)%N then Ok (SIndef false r) else Ok (SSeq x r)
+  end.
+Example C02_steps_nonvacuous :
+  (forall b s, toy_head b = Ok s -> (length (rest_of s) < length b)%nat) /\
+  walk toy_head (fun c => (c =? 254)%N) (fun _ => true) 50 0 [2; 0; 255; 0; 0; 254; 9]%N = (Ok [9]%N, 11%nat) /\
+  (* a head claiming 200 values followed by two: the walk stops at the end of input after 7 steps *)
+  walk toy_head (fun c => (c =? 254)%N) (fun _ => true) 50 0 [200; 0; 0]%N = (Err EEof, 7%nat).
+Proof.
+  repeat apply conj; try (vm_compute; reflexivity).
+  intros [| x r] s H; [discriminate |]. unfold toy_head in H.
+  destruct (x =? 0)%N; [inversion H; subst; cbn; lia |]. destruct (x =? 255)%N; inversion H; subst; cbn; lia.
+Qed.
+
 (* hostile lengths end in an error, not in a loop; the fuel K*(len+1) is reached from below *)
 Example C02_terminates_nonvacuous :
   Cbor.dec_naked (Cbor.mkdo false false false 0) (fuelK [155; 255; 255; 255; 255; 255; 255; 255; 255]%N) [155; 255; 255; 255; 255; 255; 255; 255; 255]%N = Err EOverflow /\
